@@ -15,9 +15,10 @@ RULES = {
     'R4': 'qb_log_fini stops the thread before the first target is disabled; thread_stop (active): flag under lock, post, join; (inactive): writes what is left',
     'R5': 'qb_log_ctl2 (every request but THREADED) and _do_file_reload pause before and resume after on every path',
     'R6': 'every sequence that destroys the thread lock leaves the module state reset (lock pointer NULL, wthread_active false)',
+    'R8': 'queued records are written to the targets (qb_log_thread_log_write) only while holding logt_wthread_lock, the lock control operations take through pause/resume',
     'R7': 'every lock of logt_wthread_lock outside the worker is preceded by a test that the lock exists / the thread is active',
 }
-FLOORS = {'R1': 11, 'R2': 5, 'R3': 4, 'R4': 5, 'R5': 4, 'R6': 2, 'R7': 3}
+FLOORS = {'R1': 11, 'R2': 5, 'R3': 4, 'R4': 5, 'R5': 4, 'R6': 3, 'R7': 3, 'R8': 2}
 
 LOCK = 'logt_wthread_lock'
 GUARDED = ('logt_print_finished_records', 'logt_memory_used', 'logt_dropped_messages')
@@ -59,6 +60,7 @@ def run(ctx):
     r5(ctx)
     r6(ctx, fns)
     r7(ctx, fns)
+    r8(ctx, fns)
 
 
 def _is_post(ev):
@@ -235,6 +237,17 @@ def r6(ctx, fns):
                 return x.kind == 'STORE' and estr(x.lhs) == 'wthread_active' and cval(unwrap(x.rhs)) == 0
             b2 = any(inactive(x) and f.ev_dominates(x, ev) for x in f.events('STORE'))
             a2, _p2 = f.must_pass(('after', ev), inactive)
+            def noexit(x):
+                return x.kind == 'STORE' and estr(x.lhs) == 'wthread_should_exit' and cval(unwrap(x.rhs)) == 0
+            # only matters where the exit request was raised on the way to this teardown
+            raised = [x for x in f.events('STORE') if estr(x.lhs) == 'wthread_should_exit' and cval(unwrap(x.rhs)) not in (0, None) and f.may_follow(x, ev)]
+            if raised:
+                a3, _p3 = f.must_pass(('after', ev), noexit)
+                # equally good: cleared between raising it (and joining) and destroying the lock
+                b3 = any(noexit(x) and f.ev_dominates(x, ev) and all(f.may_follow(r, x) and not f.may_follow(x, r) for r in raised)
+                         for x in f.events('STORE'))
+                ctx.check('R6', '%s:exit-request-reset' % f.name, a3 or b3, ev, 'the exit request is cleared when the thread has been torn down',
+                          'wthread_should_exit stays set after the teardown: the worker of a later qb_log_thread_start exits on its first wake-up and nothing is written')
             ctx.check('R6', '%s:active-flag-reset' % f.name, b2 or a2, ev, 'wthread_active is false after the lock was destroyed',
                       'wthread_active stays true after the thread was torn down: a later qb_log_thread_start is a no-op and posts go to a dead queue')
 
@@ -263,3 +276,18 @@ def r7(ctx, fns):
                 path = f.uncut_path(ev, early)
             ctx.check('R7', '%s:lock-exists' % f.name, path is None or created, ev, 'the lock is only taken when it exists',
                       'logt_wthread_lock may be NULL/destroyed here (threaded set but thread not started, or stopped): crash in qb_thread_lock')
+
+
+def r8(ctx, fns):
+    n = 0
+    for f in fns:
+        at, _IN = lockset(f)
+        for ev in f.calls('qb_log_thread_log_write'):
+            if f.name == 'qb_log_thread_log_post':
+                continue     # direct write while no thread exists (nothing to exclude)
+            n += 1
+            held = at.get((ev.blk, ev.idx), frozenset())
+            ctx.check('R8', '%s:write-under-lock' % f.name, LOCK in held, ev, 'queued records are written while holding %s' % LOCK,
+                      'a queued record is written to the targets without %s: a control operation (disable/close/reload) can run concurrently with the target\'s logger' % LOCK)
+    if n < 2:
+        raise AnalysisBroken('R8: write sites = %d' % n)
